@@ -479,6 +479,11 @@ Section CBLDMProofs.
   Lemma pair_sorted_sorted (x y : bin A) : 0 <= ssum (sort_bins (pair_bins x y)).
   Proof. rewrite sort_bins_two. destruct (fst x <=? fst y) eqn:E; unfold ssum, bin_at; cbn [nth]; lia. Qed.
 
+  Lemma mk_split_sorted a b : 0 <= ssum (mk_split a b).
+  Proof. apply pair_sorted_sorted. Qed.
+  Lemma mk_comb_sorted a b : 0 <= ssum (mk_comb a b).
+  Proof. apply pair_sorted_sorted. Qed.
+
   (** 5 (bridging): with both inputs sorted by sum, the children's sum gaps are
       [|x_a - x_b|] (split) and [x_a + x_b] (combined) *)
   Lemma sum_diff_split a b : sum_diff (mk_split a b) = Z.abs (ssum a - ssum b).
@@ -987,4 +992,337 @@ Section CBLDMProofs.
     exists b, t. exact E.
   Qed.
 
+  (** ** 3b. Anytime monotonicity: two runs with limits l1 <= l2 *)
+  Definition lim_le (l1 l2 : option nat) : Prop :=
+    match l1, l2 with
+    | Some a, Some b => (a <= b)%nat
+    | _, None => True
+    | None, Some _ => False
+    end.
+  (** a run is cut off once its tick counter has passed the limit (no flag is set:
+      every later call returns at once, still counting) *)
+  Definition cut (limit : option nat) (st : state) : Prop :=
+    match limit with Some k => (k < cb_ticks st)%nat | None => False end.
+  (** states identical so far, or the first run is cut off and the second is at least as good *)
+  Definition sim (l1 : option nat) (st1 st2 : state) : Prop :=
+    st1 = st2 \/ (cut l1 st1 /\ delta_le (cb_delta st2) (cb_delta st1)).
+
+  Lemma cut_stop l st : cut l st -> stop l (tick st) = true.
+  Proof.
+    unfold cut, stop. destruct l as [k|]; [|tauto]. intros H. cbn [tick cb_ticks].
+    apply orb_true_iff. left. apply Nat.ltb_lt. lia.
+  Qed.
+
+  Lemma cut_tick l st : cut l st -> cut l (tick st).
+  Proof. unfold cut. destruct l as [k|]; [|tauto]. cbn [tick cb_ticks]. lia. Qed.
+
+  Lemma stop_lim l1 l2 st : lim_le l1 l2 -> stop l2 st = true -> stop l1 st = true.
+  Proof.
+    unfold lim_le, stop. intros Hl H. apply orb_true_iff in H. apply orb_true_iff.
+    destruct H as [H|H]; [left|right; exact H].
+    destruct l2 as [b|]; [|discriminate H]. destruct l1 as [a|]; [|destruct Hl].
+    apply Nat.ltb_lt in H. apply Nat.ltb_lt. lia.
+  Qed.
+
+  Lemma stop_cut l st : stop l (tick st) = true -> cb_opt st = false -> cut l (tick st).
+  Proof.
+    unfold stop, cut. intros H Ho. apply orb_true_iff in H. destruct H as [H|H].
+    - destruct l as [k|]; [|discriminate H]. apply Nat.ltb_lt in H. exact H.
+    - cbn [tick cb_opt] in H. congruence.
+  Qed.
+
+  Lemma sim_cut n d l1 l2 fuel (subs : list subp) st1 st2 :
+    cut l1 st1 -> delta_le (cb_delta st2) (cb_delta st1) ->
+    sim l1 (cb_part n d l1 fuel subs st1) (cb_part n d l2 fuel subs st2).
+  Proof.
+    intros Hc Hd. rewrite (cb_part_unfold n d l1 fuel subs st1), (cut_stop l1 st1 Hc).
+    right. split; [apply cut_tick; exact Hc|].
+    cbn [tick cb_delta]. eapply delta_le_trans; [apply cb_part_delta_le|exact Hd].
+  Qed.
+
+  Lemma sim_part n d l1 l2 : lim_le l1 l2 -> forall fuel (subs : list subp) st1 st2,
+    sim l1 st1 st2 -> sim l1 (cb_part n d l1 fuel subs st1) (cb_part n d l2 fuel subs st2).
+  Proof.
+    intros Hl. induction fuel as [|f IH]; intros subs st1 st2 [->|[Hc Hd]];
+      try (apply sim_cut; assumption).
+    - rewrite (cb_part_unfold n d l1 0 subs st2).
+      destruct (stop l1 (tick st2)) eqn:E1.
+      + destruct (cb_opt st2) eqn:Eo.
+        * rewrite (cb_part_unfold n d l2 0 subs st2).
+          assert (E2 : stop l2 (tick st2) = true).
+          { unfold stop. cbn [tick cb_opt]. rewrite Eo. apply orb_true_r. }
+          rewrite E2. left. reflexivity.
+        * right. split; [apply stop_cut; assumption|]. cbn [tick cb_delta]. apply cb_part_delta_le.
+      + rewrite (cb_part_unfold n d l2 0 subs st2).
+        destruct (stop l2 (tick st2)) eqn:E2; [rewrite (stop_lim l1 l2 _ Hl E2) in E1; discriminate E1|].
+        left. reflexivity.
+    - rewrite (cb_part_unfold n d l1 (S f) subs st2).
+      destruct (stop l1 (tick st2)) eqn:E1.
+      + destruct (cb_opt st2) eqn:Eo.
+        * rewrite (cb_part_unfold n d l2 (S f) subs st2).
+          assert (E2 : stop l2 (tick st2) = true).
+          { unfold stop. cbn [tick cb_opt]. rewrite Eo. apply orb_true_r. }
+          rewrite E2. left. reflexivity.
+        * right. split; [apply stop_cut; assumption|]. cbn [tick cb_delta]. apply cb_part_delta_le.
+      + rewrite (cb_part_unfold n d l2 (S f) subs st2).
+        destruct (stop l2 (tick st2)) eqn:E2; [rewrite (stop_lim l1 l2 _ Hl E2) in E1; discriminate E1|].
+        destruct subs as [|p [|q r]]; try (left; reflexivity).
+        destruct (pruned d (p :: q :: r) (tick st2)); [left; reflexivity|].
+        destruct (reorder n (p :: q :: r)) as [|a [|b rest]]; try (left; reflexivity).
+        apply IH. apply IH. left. reflexivity.
+  Qed.
+
+  Theorem cbldm_monotone_gen : forall k items tl d dint l1 l2 b1 t1, lim_le l1 l2 ->
+    cbldm valueof k items tl d dint l1 = Ok (CbBins b1, t1) ->
+    exists b2 t2, cbldm valueof k items tl d dint l2 = Ok (CbBins b2, t2) /\ sum_diff b2 <= sum_diff b1.
+  Proof.
+    intros k items tl d dint l1 l2 b1 t1 Hl H. unfold cbldm in H |- *.
+    destruct (negb (Nat.eqb k 2)); [discriminate H|].
+    destruct (negb tl); [discriminate H|].
+    destruct ((d <? 1) || negb dint); [discriminate H|].
+    destruct (last_opt (sort_desc valueof items)) as [l|]; [|discriminate H].
+    destruct (valueof l <? 0); [discriminate H|].
+    fold (init_subs (sort_desc valueof items)) in H |- *. fold init_state in H |- *.
+    pose proof (sim_part (length items) d l1 l2 Hl (length items) (init_subs (sort_desc valueof items))
+                         init_state init_state (or_introl eq_refl)) as S.
+    destruct (cbldm_delta_mono (length items) d l1 (length items) (init_subs (sort_desc valueof items))
+                               init_state init_state_coherent) as (C1 & _ & _).
+    destruct (cbldm_delta_mono (length items) d l2 (length items) (init_subs (sort_desc valueof items))
+                               init_state init_state_coherent) as (C2 & _ & _).
+    cbv zeta in C1, C2.
+    set (st1 := cb_part (length items) d l1 _ _ _) in *.
+    set (st2 := cb_part (length items) d l2 _ _ _) in *.
+    destruct (cb_best st1) as [b|] eqn:Eb1; [|discriminate H]. injection H as -> _.
+    destruct S as [S|[_ S]].
+    - exists b1, (cb_ticks st2). rewrite <- S, Eb1. split; [reflexivity|lia].
+    - rewrite (coherent_best st1 b1 C1 Eb1) in S.
+      destruct (cb_delta st2) as [v|] eqn:Ed2; simpl in S; [|destruct S].
+      destruct (coherent_delta st2 v C2 Ed2) as (b2 & Eb2 & Ev).
+      exists b2, (cb_ticks st2). rewrite Eb2. split; [reflexivity|lia].
+  Qed.
+
+  Theorem cbldm_monotone : forall items d n m b1 t1, (n <= m)%nat ->
+    cbldm valueof 2 items true d true (Some n) = Ok (CbBins b1, t1) ->
+    exists b2 t2, cbldm valueof 2 items true d true (Some m) = Ok (CbBins b2, t2) /\
+                  sum_diff b2 <= sum_diff b1.
+  Proof. intros items d n m b1 t1 Hnm. apply cbldm_monotone_gen. exact Hnm. Qed.
+
+  Theorem cbldm_monotone_none : forall items d n b1 t1,
+    cbldm valueof 2 items true d true (Some n) = Ok (CbBins b1, t1) ->
+    exists b2 t2, cbldm valueof 2 items true d true None = Ok (CbBins b2, t2) /\
+                  sum_diff b2 <= sum_diff b1.
+  Proof. intros items d n b1 t1. apply cbldm_monotone_gen. exact I. Qed.
+
+  (** ** 3c. A limit beyond the length of the unlimited run changes nothing *)
+  Lemma part_limit_irrelevant n d k : forall fuel (subs : list subp) st,
+    (cb_ticks (cb_part n d None fuel subs st) <= k)%nat ->
+    cb_part n d (Some k) fuel subs st = cb_part n d None fuel subs st.
+  Proof.
+    induction fuel as [|f IH]; intros subs st H.
+    - pose proof (run_ticks _ _ _ _ _ _ _ (cb_part_run_lax n d None 0 subs st)) as Ht.
+      rewrite (cb_part_unfold n d (Some k) 0 subs st), (cb_part_unfold n d None 0 subs st).
+      assert (Es : stop (Some k) (tick st) = stop None (tick st)).
+      { unfold stop. cbn [tick cb_ticks]. destruct (Nat.ltb k (S (cb_ticks st))) eqn:E; [apply Nat.ltb_lt in E; lia|reflexivity]. }
+      rewrite Es. reflexivity.
+    - pose proof (run_ticks _ _ _ _ _ _ _ (cb_part_run_lax n d None (S f) subs st)) as Ht.
+      assert (Es : stop (Some k) (tick st) = stop None (tick st)).
+      { unfold stop. cbn [tick cb_ticks]. destruct (Nat.ltb k (S (cb_ticks st))) eqn:E; [apply Nat.ltb_lt in E; lia|reflexivity]. }
+      clear Ht. rewrite (cb_part_unfold n d None (S f) subs st) in H.
+      rewrite (cb_part_unfold n d (Some k) (S f) subs st), (cb_part_unfold n d None (S f) subs st).
+      rewrite Es. destruct (stop None (tick st)); [reflexivity|].
+      destruct subs as [|p [|q r]]; try reflexivity.
+      destruct (pruned d (p :: q :: r) (tick st)); [reflexivity|].
+      destruct (reorder n (p :: q :: r)) as [|a [|b rest]]; try reflexivity.
+      pose proof (run_ticks _ _ _ _ _ _ _ (cb_part_run_lax n d None f (rest ++ [mk_comb a b])
+                    (cb_part n d None f (rest ++ [mk_split a b]) (tick st)))) as Ht2.
+      rewrite (IH (rest ++ [mk_split a b]) (tick st)) by lia.
+      apply IH. exact H.
+  Qed.
+
+  Theorem cbldm_limit_none : forall k items tl d dint,
+    exists N, forall m, (N <= m)%nat ->
+      cbldm valueof k items tl d dint (Some m) = cbldm valueof k items tl d dint None.
+  Proof.
+    intros k items tl d dint.
+    exists (cb_ticks (cb_part (length items) d None (length items) (init_subs (sort_desc valueof items)) init_state)).
+    intros m Hm. unfold cbldm.
+    destruct (negb (Nat.eqb k 2)); [reflexivity|].
+    destruct (negb tl); [reflexivity|].
+    destruct ((d <? 1) || negb dint); [reflexivity|].
+    destruct (last_opt (sort_desc valueof items)) as [l|]; [|reflexivity].
+    destruct (valueof l <? 0); [reflexivity|].
+    fold (init_subs (sort_desc valueof items)). fold init_state.
+    rewrite part_limit_irrelevant by exact Hm. reflexivity.
+  Qed.
+
+  (** ** Optimality against the specification [OptBalanced] (C12) *)
+  Lemma init_gauge x : gauge (add_item valueof true (new_bins 2) x 1) = (valueof x, 1).
+  Proof.
+    rewrite init_sub_eq. unfold gauge, ssum, slen, blen, bin_at. cbn [nth fst snd length]. f_equal; lia.
+  Qed.
+
+  Lemma init_subs_gauge_eq sorted : map gauge (init_subs sorted) = map (fun x => (valueof x, 1)) sorted.
+  Proof. unfold init_subs. rewrite map_map. apply map_ext. exact init_gauge. Qed.
+
+  (** every mask is a signed combination of the singletons *)
+  Lemma mask_SC (items : list A) : forall mask, length mask = length items ->
+    SC (map (fun x => (valueof x, 1)) items)
+       (2 * side_sum (map valueof items) mask - zsum (map valueof items),
+        2 * side_count mask - Z.of_nat (length items)).
+  Proof.
+    induction items as [|x t IH]; intros [|m mt] Hl; try discriminate Hl.
+    - apply SC_nil.
+    - simpl in Hl. injection Hl as Hl. cbn [map]. eapply (SC_cons m); [apply (IH mt Hl)| |];
+        destruct m; cbn [side_sum side_count length]; rewrite ?zsum_cons; lia.
+  Qed.
+
+  (** hence every split of the items is (up to swapping sides) a leaf of the tree *)
+  Lemma mask_leaf n items sorted mask : Permutation sorted items -> items <> [] ->
+    length mask = length items ->
+    exists p, leaf_below n (init_subs sorted) p /\
+              sum_diff p = split_diff (map valueof items) mask /\
+              len_diff p = Z.abs (2 * side_count mask - Z.of_nat (length items)).
+  Proof.
+    intros P Hne Hl. pose proof (mask_SC items mask Hl) as H.
+    apply (SC_perm _ (map (fun x => (valueof x, 1)) sorted)) in H; [|apply Permutation_map; symmetry; exact P].
+    rewrite <- init_subs_gauge_eq in H.
+    assert (Hm : exists m, length (init_subs sorted) = S m).
+    { unfold init_subs. rewrite map_length, (Permutation_length P).
+      destruct items as [|x t]; [congruence|]. exists (length t). reflexivity. }
+    destruct Hm as [m Hm]. destruct (SC_leaf n m _ _ _ Hm H) as (p & Hp & Hg).
+    exists p. split; [exact Hp|]. rewrite sum_diff_abs, len_diff_abs. unfold split_diff, gauge in *.
+    destruct Hg as [Hg|Hg]; pose proof (f_equal fst Hg) as E1; pose proof (f_equal snd Hg) as E2;
+      cbn [fst snd] in E1, E2; split; lia.
+  Qed.
+
+  (** masks follow permutations *)
+  Lemma perm_mask (l items : list A) : Permutation l items -> forall mask, length mask = length l ->
+    exists mask', length mask' = length items /\
+                  side_sum (map valueof items) mask' = side_sum (map valueof l) mask /\
+                  side_count mask' = side_count mask.
+  Proof.
+    induction 1 as [|x l l' P IH|x y l|l l' l'' P1 IH1 P2 IH2]; intros mask Hl.
+    - exists mask. auto.
+    - destruct mask as [|m mt]; [discriminate Hl|]. simpl in Hl. injection Hl as Hl.
+      destruct (IH mt Hl) as (mt' & H1 & H2 & H3). exists (m :: mt').
+      cbn [map side_sum side_count length]. rewrite H1, H2, H3. auto.
+    - destruct mask as [|m1 [|m2 mt]]; try discriminate Hl. exists (m2 :: m1 :: mt).
+      cbn [map side_sum side_count length] in *. repeat split; lia.
+    - destruct (IH1 mask Hl) as (m1 & H1 & H2 & H3). destruct (IH2 m1 H1) as (m2 & G1 & G2 & G3).
+      exists m2. repeat split; congruence.
+  Qed.
+
+  Lemma side_sum_app vs1 vs2 m1 m2 : length m1 = length vs1 ->
+    side_sum (vs1 ++ vs2) (m1 ++ m2) = side_sum vs1 m1 + side_sum vs2 m2.
+  Proof.
+    revert m1. induction vs1 as [|v t IH]; intros [|m mt] Hl; try discriminate Hl.
+    - simpl. lia.
+    - simpl in Hl. injection Hl as Hl. cbn [app side_sum]. rewrite (IH mt Hl). lia.
+  Qed.
+  Lemma side_count_app m1 m2 : side_count (m1 ++ m2) = side_count m1 + side_count m2.
+  Proof. induction m1 as [|m t IH]; cbn [app side_count]; lia. Qed.
+  Lemma side_sum_false vs : side_sum vs (repeat false (length vs)) = 0.
+  Proof. induction vs as [|v t IH]; cbn [length repeat side_sum]; lia. Qed.
+  Lemma side_sum_true vs : side_sum vs (repeat true (length vs)) = zsum vs.
+  Proof. induction vs as [|v t IH]; cbn [length repeat side_sum]; rewrite ?zsum_cons; [reflexivity|lia]. Qed.
+  Lemma side_count_false k : side_count (repeat false k) = 0.
+  Proof. induction k as [|k IH]; cbn [repeat side_count]; lia. Qed.
+  Lemma side_count_true k : side_count (repeat true k) = Z.of_nat k.
+  Proof. induction k as [|k IH]; cbn [repeat side_count]; lia. Qed.
+
+  (** a valid two-bin partition with count gap <= d is a balanced split *)
+  Lemma partition_balanced_split items d (b : bins A) :
+    is_partition valueof 2 items b -> len_diff b <= d ->
+    exists mask, balanced_split d (map valueof items) mask /\
+                 split_diff (map valueof items) mask = sum_diff b.
+  Proof.
+    intros (P & Lb & Wb) Hd. rewrite (contents_two b Lb) in P.
+    set (l0 := snd (bin_at b 0)) in *. set (l1 := snd (bin_at b 1)) in *.
+    pose (mask0 := repeat false (length (map valueof l0)) ++ repeat true (length (map valueof l1))).
+    assert (Hl0 : length mask0 = length (l0 ++ l1)).
+    { unfold mask0. rewrite !app_length, !repeat_length, !map_length. reflexivity. }
+    destruct (perm_mask _ _ P mask0 Hl0) as (mask & H1 & H2 & H3).
+    assert (Es : side_sum (map valueof (l0 ++ l1)) mask0 = fst (bin_at b 1)).
+    { unfold mask0. rewrite map_app, side_sum_app by (rewrite repeat_length; reflexivity).
+      rewrite side_sum_false, side_sum_true. pose proof (bin_at_wf b 1 Wb) as W. unfold wf_bin in W.
+      fold l1 in W. lia. }
+    assert (Ec : side_count mask0 = Z.of_nat (length l1)).
+    { unfold mask0. rewrite side_count_app, side_count_false, side_count_true, map_length. lia. }
+    assert (Et : zsum (map valueof items) = fst (bin_at b 0) + fst (bin_at b 1)).
+    { rewrite <- (zsum_perm _ _ (Permutation_map valueof P)), map_app, zsum_app.
+      pose proof (bin_at_wf b 0 Wb) as W0. pose proof (bin_at_wf b 1 Wb) as W1.
+      unfold wf_bin in W0, W1. fold l0 in W0. fold l1 in W1. lia. }
+    assert (En : length items = (length l0 + length l1)%nat).
+    { rewrite <- (Permutation_length P), app_length. reflexivity. }
+    exists mask. split.
+    - split; [rewrite map_length; exact H1|]. rewrite map_length, H3, Ec, En.
+      unfold len_diff in Hd. fold l0 l1 in Hd. lia.
+    - unfold split_diff, sum_diff. rewrite H2, Es, Et. lia.
+  Qed.
+
+  Theorem cbldm_optimal : forall items d,
+    Forall (fun x => 0 <= valueof x) items -> items <> [] -> 1 <= d ->
+    exists b t, cbldm valueof 2 items true d true None = Ok (CbBins b, t) /\
+                is_partition valueof 2 items b /\ len_diff b <= d /\
+                OptBalanced d (map valueof items) (sum_diff b).
+  Proof.
+    intros items d Hnn Hne Hd. destruct (cbldm_leaf_optimal items d Hnn Hne Hd) as (b & t & E & Hopt).
+    exists b, t. split; [exact E|].
+    destruct (cbldm_safe_gen _ _ _ _ _ _ _ _ E) as [Hb|(b' & Eb & Hp & Hl)]; [discriminate Hb|].
+    injection Eb as <-. split; [exact Hp|]. split; [exact Hl|]. split.
+    - destruct (partition_balanced_split items d b Hp Hl) as (mask & Hm & Es). exists mask. auto.
+    - intros mask [Hlen Hbal]. rewrite map_length in Hlen, Hbal.
+      destruct (mask_leaf (length items) items (sort_desc valueof items) mask (sort_desc_perm valueof items) Hne Hlen)
+        as (p & Hp' & Es & El).
+      rewrite <- Es. apply Hopt; [exact Hp'|]. rewrite El. exact Hbal.
+  Qed.
+
 End CBLDMProofs.
+
+(** * Examples *)
+Example cbldm_ex_single :
+  cbldm (fun x : Z => x) 2 [10] true 1 true None = Ok (CbBins [(0, []); (10, [10])], 1%nat).
+Proof. vm_compute. reflexivity. Qed.
+
+Example cbldm_ex_zero :
+  cbldm (fun x : Z => x) 2 [10; 0] true 1 true None = Ok (CbBins [(0, [0]); (10, [10])], 3%nat).
+Proof. vm_compute. reflexivity. Qed.
+
+(** the input on which the paper's extra prune condition fails (see the comment in cbldm.py) *)
+Example cbldm_ex_ones :
+  cbldm (fun x : Z => x) 2 [1; 1; 1; 1; 1; 1; 1; 1; 1; 1] true 1 true None =
+  Ok (CbBins [(5, [1; 1; 1; 1; 1]); (5, [1; 1; 1; 1; 1])], 19%nat).
+Proof. vm_compute. reflexivity. Qed.
+
+(** the doctest of cbldm.py: sums 15/15 *)
+Example cbldm_ex_doctest :
+  cbldm (fun x : Z => x) 2 [8; 7; 6; 5; 4] true 1 true None =
+  Ok (CbBins [(15, [4; 6; 5]); (15, [8; 7])], 15%nat).
+Proof. vm_compute. reflexivity. Qed.
+
+(** interrupted before the first leaf: the placeholder; the tick counter keeps running *)
+Example cbldm_ex_placeholder :
+  cbldm (fun x : Z => x) 2 [8; 7; 6; 5; 4] true 1 true (Some 3%nat) = Ok (CbPlaceholder, 7%nat).
+Proof. vm_compute. reflexivity. Qed.
+
+(** interrupted after the first leaf: a valid but not yet optimal partition *)
+Example cbldm_ex_interrupted :
+  cbldm (fun x : Z => x) 2 [8; 7; 6; 5; 4] true 1 true (Some 5%nat) =
+  Ok (CbBins [(14, [8; 6]); (16, [4; 7; 5])], 9%nat).
+Proof. vm_compute. reflexivity. Qed.
+
+Print Assumptions cbldm_error_iff.
+Print Assumptions cbldm_error_kind.
+Print Assumptions cbldm_safe.
+Print Assumptions cbldm_safe_gen.
+Print Assumptions sum_prune_arith.
+Print Assumptions sum_prune_sound.
+Print Assumptions len_prune_sound.
+Print Assumptions leaf_signed_sum.
+Print Assumptions cbldm_delta_mono.
+Print Assumptions cbldm_monotone.
+Print Assumptions cbldm_monotone_none.
+Print Assumptions cbldm_limit_none.
+Print Assumptions cbldm_total.
+Print Assumptions cbldm_leaf_optimal.
+Print Assumptions cbldm_optimal.
